@@ -15,6 +15,7 @@ import (
 type Options struct {
 	Positions bool // include source positions of nodes (off for metamorphic comparisons across different texts)
 	NoNS      bool // omit namespace / instantiating-module attribution
+	NoExtra   bool // omit Entry.Extra ("extra-unstable": a node merged from a submodule carries the submodule's belongs-to there)
 }
 
 func enumText(e *yang.EnumType) string {
@@ -190,7 +191,23 @@ func Entry(sb *strings.Builder, e *yang.Entry, ind string, o Options, seen map[*
 		fmt.Fprintf(sb, " unapplied-augments=%d", len(e.Augments))
 	}
 	if n := len(e.Exts); n > 0 {
-		fmt.Fprintf(sb, " exts=%d", n)
+		var xs []string
+		for _, x := range e.Exts {
+			xs = append(xs, x.Keyword+"="+x.Argument)
+		}
+		fmt.Fprintf(sb, " exts=%q", xs)
+	}
+	if len(e.Extra) > 0 && !o.NoExtra {
+		var ks []string
+		for k, v := range e.Extra {
+			if len(v) > 0 {
+				ks = append(ks, fmt.Sprintf("%s*%d", k, len(v)))
+			}
+		}
+		sort.Strings(ks)
+		if len(ks) > 0 {
+			fmt.Fprintf(sb, " extra=%v", ks)
+		}
 	}
 	if o.Positions && e.Node != nil {
 		fmt.Fprintf(sb, " at=%s", safe(func() string { return yang.Source(e.Node) }))
